@@ -105,7 +105,7 @@ def two_pass(F, gen, ctor="jit::JitMemory::new"):
 
 def cl_rows():
     return [
-        Row("jump-target", r"prepare_jump_blocks$", r"^unwrap:Result<T, E>::unwrap\(TryInto<U>>::try_into\(", "D3",
+        Row("jump-target", r"^cranelift::CraneliftCompiler::\w+$", r"^unwrap:Result<T, E>::unwrap\(TryInto<U>>::try_into\(", "D3",
             "jump targets of a verified program are non-negative instruction indexes below 1,000,000, hence fit u32", cites=("C06/R06.b",)),
         Row("pc-u32", r"build_cfg$", r"^Overflow\(Add\)\(\(mut<usize> as u32\),1\)$|^precond:.*prepare_jump_blocks<-Overflow", "D3",
             "pc < 1,000,000", cites=("C06/R06.d",)),
@@ -126,6 +126,9 @@ def cl_rows():
         Row("unknown-opc", r"translate_program$", r"^panic!unimplemented@u8!in\[\d+ values\]$", "D3", "every accepted opcode has an arm", cites=("R12.g",)),
         Row("inner-matches", r"translate_program$", r"^panic!unreachable@u8=[\d,\.]+;u8!in\[", "D1",
             "inner match over the same opcode set as the enclosing or-pattern"),
+        Row("translate-closure-unreachable", r"translate_program::\{closure#\d+\}$", r"^panic!unreachable@$", "D1",
+            "a fallback closure of a table lookup in the translator (`find(..).unwrap_or_else(|| unreachable!())`): no supported opcode "
+            "reaches it - decided by evaluating the translation of every supported opcode (R12.n)", cites=("R12.n",)),
         Row("jmp-cc", r"translate_program$", r"^panic!unreachable@u8=21,22,29,30", "D1", "the condition-code ladder covers every jump operation of the enclosing or-pattern (R12.g)"),
         Row("endian", r"translate_program$", r"^panic!unreachable@u8=212,220;i32!in\[16,32,64\]$", "D3", "LE/BE immediates are 16/32/64", cites=("C06/R06.b",)),
         Row("targets-map", r"translate_program$", r"^index:Index<&Q>>::index\(&\*arg1<&mut cranelift::CraneliftCompiler>\.insn_targets", "D1",
@@ -424,6 +427,27 @@ def run(rep, tier):
     badc = sorted({e for p in reachc for e in cc.cg.ext.get(p, ()) if IMPURE.search(e)})
     rep.ob(re_, "cranelift", not badc, "external callees of the Cranelift compiler", expected="none matching time/rand/env", found=badc)
 
+    # R12.n: the translation of a supported opcode has no panicking path (table lookups with an `unreachable!()` fallback,
+    # inner matches over the operation bits)
+    rn_ = rep.rule("R12.n", "Cranelift: the translation of every supported opcode, evaluated for sample register pairs, has no panicking path", floor=100)
+    import clmodel as _clm
+    import isa as _isa
+    cmn = _clm.ClModel(cc)
+    if cmn.ok:
+        for v in sorted(_isa.SUPPORTED):
+            if _isa.TABLE[v]["kind"] == "end":
+                continue        # byte swaps panic for a width other than 16/32/64, which the verifier refuses (row `endian`)
+            bad = []
+            for d_, s_ in ((0, 1), (3, 3), (9, 10)):
+                try:
+                    ps = cmn.paths(v, d_ if d_ != 10 else 9, s_)
+                except Exception as e:          # fail closed
+                    bad.append("not evaluable: %s" % str(e)[:80])
+                    continue
+                if any(p["err"] == "panic" for p in ps):
+                    bad.append("a path of the arm panics for registers (%d, %d)" % (d_, s_))
+            rep.ob(rn_, "opc=%#04x" % v, not bad, "Cranelift translation of opcode %#04x" % v, expected="no panicking path", found=bad[:2] or "none")
+
     rd = rep.rule("R12.d", "terminator-emitting opcodes have their follow-up block prepared by the CFG pass", floor=40)
     tr, cfg = cc.roles.cranelift_translate(), cc.roles.cranelift_cfg()
     if tr and cfg:
@@ -447,7 +471,7 @@ def run(rep, tier):
                    found="prepared=%s filled=%s" % (prep, filled))
         rh = rep.rule("R12.h", "the CFG pass derives a jump target from `off` only for opcodes whose offset the verifier validates", floor=40)
         for v in sorted(isa.TABLE):
-            uses = any(c in tgt_fn for c in _calls(lc, v))
+            uses = any(c in tgt_fn or c.endswith("TryInto<U>>::try_into") for c in _calls(lc, v))     # (in a helper or in the arm itself)
             if uses or isa.is_branch(isa.TABLE[v]):
                 rep.ob(rh, "opc=%#04x" % v, uses == isa.is_branch(isa.TABLE[v]),
                        "opcode %#04x: CFG pass computes pc+off+1" % v, expected=isa.is_branch(isa.TABLE[v]), found=uses)
